@@ -144,6 +144,10 @@ func keepNilLiteralCallListChainMiddleware(next _LiteralCallMiddlewareHandler) _
 			}
 
 			elem := next(env, nextRecv, chainArg, args, kwargs)
+			if elem.Type() == object.ErrType {
+				// raise error
+				return elem
+			}
 			elems = append(elems, elem)
 		}
 
